@@ -74,6 +74,11 @@ func runC05(s *kernel.Sim) {
 				for j := 1; j <= f.nGen; j++ {
 					pool = append(pool, fmt.Sprintf("g%d", j))
 				}
+				if tp.Chance(1, 3) { // the same processor key may be wired in both directions
+					for j := 1; j <= f.nReq; j++ {
+						pool = append(pool, fmt.Sprintf("p%d", j))
+					}
+				}
 			}
 			if len(pool) == 0 {
 				continue
@@ -117,6 +122,27 @@ func runC05(s *kernel.Sim) {
 			f.resp = append(f.resp, c)
 			mutations = append(mutations, fmt.Sprintf("resp%v", c))
 		}
+	}
+	if plausible && f.nReq >= 2 && tp.Chance(1, 5) {
+		// a loop in the response direction over processor keys that the request
+		// direction also uses (there without a loop), entered from the response root,
+		// a response processor or an early-response connection
+		a := fmt.Sprintf("p%d", 1+tp.Choose(f.nReq))
+		b := fmt.Sprintf("p%d", 1+tp.Choose(f.nReq))
+		entry := c04conn{to: a}
+		switch tp.Choose(3) {
+		case 1:
+			if f.nResp > 0 {
+				entry.from, entry.cond = "r1", conds[tp.Choose(2)]
+			}
+		case 2:
+			if f.nGen > 0 {
+				entry.from = "g1"
+			}
+		}
+		loop := []c04conn{entry, {from: a, cond: conds[tp.Choose(2)], to: b}, {from: b, cond: conds[tp.Choose(2)], to: a}}
+		f.resp = append(f.resp, loop...)
+		mutations = append(mutations, fmt.Sprintf("resp-loop-over-request-keys%v", loop))
 	}
 	yaml := f.def("a.com/c").YAML()
 	// textual mutations of the YAML
